@@ -291,6 +291,8 @@ class AbstractCircuit(abc.ABC):
                 return selected_moments[qubit_idx]
             if isinstance(qubit_idx, ops.Qid):
                 qubit_idx = [qubit_idx]
+            else:
+                qubit_idx = tuple(qubit_idx)  # may be a one-shot iterable; it is used once per moment
             return self._from_moments(
                 (moment[qubit_idx] for moment in selected_moments), tags=self.tags
             )
